@@ -18,6 +18,7 @@ type Term struct {
 	B    bool     // Bool literal
 	Name string   // symbol name, or literal text
 	str  string
+	QVars [][2]string // forall / exists: bound variables (name, sort)
 }
 
 const (
@@ -670,7 +671,7 @@ func Forall(vars [][2]string, body *Term, patterns ...*Term) *Term {
 		sb.WriteString(body.String())
 	}
 	sb.WriteString(")")
-	t := &Term{Op: "forall", Sort: SBool, Args: []*Term{body}}
+	t := &Term{Op: "forall", Sort: SBool, Args: []*Term{body}, QVars: vars}
 	t.str = sb.String()
 	return t
 }
@@ -685,7 +686,7 @@ func Exists(vars [][2]string, body *Term) *Term {
 		sb.WriteString("(" + v[0] + " " + v[1] + ") ")
 	}
 	sb.WriteString(") " + body.String() + ")")
-	t := &Term{Op: "exists", Sort: SBool, Args: []*Term{body}}
+	t := &Term{Op: "exists", Sort: SBool, Args: []*Term{body}, QVars: vars}
 	t.str = sb.String()
 	return t
 }
@@ -697,7 +698,7 @@ func (t *Term) symbols(out map[string]bool) {
 	case "sym":
 		out[t.Name] = true
 	case "lit":
-	case "forall", "exists", "constarr":
+	case "forall", "exists", "constarr", "opaque":
 		for _, tok := range tokenize(t.String()) {
 			out[tok] = true
 		}
